@@ -1,6 +1,12 @@
 /-
   C20 — specification in the words of the property (closed forms indexed by the output
   position `n`; no state).  Mathlib-free; executable (quadratic, for auditing not speed).
+
+  Each closed form is followed by the same specification written as a recursion over the input
+  (`…SpecRec`, linear time: one pass, the state is what the closed form recomputes at every `n`).
+  `ALV.Props.C20.mavgSpecRec_eq_spec … unwrapSpecRec_eq_spec` (and `rat_spec_recursions` for the
+  `Rat` instances) prove `…SpecRec = …Spec` for all inputs; the driver evaluates the closed form
+  itself on short inputs and the recursion on long ones (thousands of samples).
 -/
 import ALV.Model.C20
 namespace ALV.C20
@@ -26,9 +32,26 @@ def mavgClosed (size : Nat) (zero : α) (xs : List α) : List α :=
   (List.range xs.length).map fun (n : Nat) =>
     sumL ((List.range size).map fun (k : Nat) => ext zero xs ((n : Int) - (k : Int))) / (size : α)
 
+/-- window recursion: `w` holds the last `size` samples (oldest first) -/
+def mavgFrom (size : Nat) : List α → List α → List α
+  | _, [] => []
+  | w, x :: xs => (sumL (w.drop 1 ++ [x]) / (size : α)) :: mavgFrom size (w.drop 1 ++ [x]) xs
+
+/-- `mavgSpec` as one pass over the input, the window starting as `size` copies of `zero` -/
+def mavgSpecRec (size : Nat) (zero : α) (xs : List α) : List α :=
+  mavgFrom size (List.replicate size zero) xs
+
 /-- **running sums**: output `n` is `x[0] + … + x[n]` -/
 def accSpec (xs : List α) : List α :=
   (List.range xs.length).map fun n => sumL (xs.take (n + 1))
+
+/-- running sums as a recursion: `s` is the sum of the samples seen so far -/
+def accFrom : α → List α → List α
+  | _, [] => []
+  | s, x :: xs => (s + x) :: accFrom (s + x) xs
+
+/-- `accSpec` as one pass over the input -/
+def accSpecRec (xs : List α) : List α := accFrom 0 xs
 
 /-- `x[n] − x[n−lag]`, earlier samples taken as `zero` -/
 def lagDiffSpec (lag : Nat) (zero : α) (xs : List α) : List α :=
@@ -40,6 +63,10 @@ variable [LT α] [DecidableLT α]
 /-- **amdf**: moving average (same `zero` convention) of `|x[n] − x[n−lag]|` -/
 def amdfSpec (lag size : Nat) (zero : α) (xs : List α) : List α :=
   mavgSpec size zero ((lagDiffSpec lag zero xs).map absG)
+
+/-- `amdfSpec` with the moving average evaluated in one pass -/
+def amdfSpecRec (lag size : Nat) (zero : α) (xs : List α) : List α :=
+  mavgSpecRec size zero ((lagDiffSpec lag zero xs).map absG)
 
 end mavg
 
@@ -94,6 +121,15 @@ def zcrossSpec (h fs : α) (xs : List α) : List Nat :=
   (List.range xs.length).map fun n =>
     if crossing h (curSign h fs (xs.take n)) (xs.getD n 0) then 1 else 0
 
+/-- the specification as a recursion over the current sign `s ∈ {-1, 0, 1}` -/
+def zFrom (h : α) : α → List α → List Nat
+  | _, [] => []
+  | s, x :: xs =>
+    (if crossing h s x then 1 else 0) :: zFrom h (if outside h x then sgn3 x else s) xs
+
+/-- `zcrossSpec` as one pass over the input, the current sign starting as `first_sign`'s sign -/
+def zcrossSpecRec (h fs : α) (xs : List α) : List Nat := zFrom h (sgn3 fs) xs
+
 end zcross
 
 /-! ### unwrap -/
@@ -119,6 +155,18 @@ def unwrapSpec (fl : α → α) (maxDelta step : α) (xs : List α) : List α :=
   (List.range xs.length).map fun n =>
     xs.getD n 0 + sumL ((diffs (xs.take (n + 1))).map (corr fl maxDelta step))
 
+/-- specification as a recursion: `delta` is the correction accumulated so far -/
+def uFrom (fl : α → α) (md step : α) : α → α → List α → List α
+  | _, _, [] => []
+  | d0, delta, d1 :: rest =>
+    (d1 + (delta + corr fl md step (d1 - d0))) ::
+      uFrom fl md step d1 (delta + corr fl md step (d1 - d0)) rest
+
+/-- `unwrapSpec` as one pass over the input: no correction before the first sample -/
+def unwrapSpecRec (fl : α → α) (maxDelta step : α) : List α → List α
+  | [] => []
+  | d0 :: rest => d0 :: uFrom fl maxDelta step d0 0 rest
+
 /-- `fl` is a floor function: integer valued, `fl x ≤ x < fl x + 1`
     (hypothesis of the unwrap theorems; `Rat.floor` satisfies it) -/
 def IsFloor [IntCast α] [LE α] (fl : α → α) : Prop :=
@@ -141,6 +189,12 @@ def amdfSpec (lag size : Nat) (zero : Rat) (xs : List Rat) := C20.amdfSpec lag s
 def clipSpec (low high : Option Rat) (xs : List Rat) := C20.clipSpec low high xs
 def zcrossSpec (h fs : Rat) (xs : List Rat) := C20.zcrossSpec h fs xs
 def unwrapSpec (md step : Rat) (xs : List Rat) := C20.unwrapSpec fl md step xs
+
+def mavgSpecRec (size : Nat) (zero : Rat) (xs : List Rat) := C20.mavgSpecRec size zero xs
+def accSpecRec (xs : List Rat) := C20.accSpecRec xs
+def amdfSpecRec (lag size : Nat) (zero : Rat) (xs : List Rat) := C20.amdfSpecRec lag size zero xs
+def zcrossSpecRec (h fs : Rat) (xs : List Rat) := C20.zcrossSpecRec h fs xs
+def unwrapSpecRec (md step : Rat) (xs : List Rat) := C20.unwrapSpecRec fl md step xs
 
 end R
 
